@@ -133,6 +133,33 @@ def run(p: Program, rep: Report, tier: str) -> None:
             rep.ok("R19.2", "each field line is f'{k}: {v}'.encode(charset)")
         else:
             rep.violation("R19.2", construct(fn, text=f"field line {t}"), where(fn), "a field line is not '<name>: <value>' encoded with the response charset")
+    # purity: the block is a function of (event, charset) only - no module-level mutable state is read or written by the
+    # encoder or anything it calls (a cache keyed without the charset would leak one response's encoding into another)
+    mutable_globals = {n for n, v in mod.constants.items() if isinstance(v, (ast.Dict, ast.List, ast.Set)) or (isinstance(v, ast.Call) and isinstance(v.func, ast.Name) and v.func.id in ("dict", "list", "set", "defaultdict", "OrderedDict"))}
+    seen_f, todo = set(), [fn]
+    while todo:
+        f_ = todo.pop()
+        if f_.fq in seen_f:
+            continue
+        seen_f.add(f_.fq)
+        for n in ast.walk(f_.node):
+            if isinstance(n, ast.Name) and n.id in mutable_globals and n.id not in f_.params:
+                rep.violation("R19.2", construct(f_, text=f"module-level mutable {n.id}"), where(f_, n),
+                              f"{f_.fq} uses the module-level mutable container {n.id}: the bytes of an event no longer depend on the event and the response charset alone")
+            if isinstance(n, ast.Call):
+                r = p.resolve_call(f_, n)
+                if isinstance(r, FuncInfo) and r.module is mod:
+                    todo.append(r)
+        if any(isinstance(n, (ast.Global, ast.Nonlocal)) for n in ast.walk(f_.node)):
+            rep.violation("R19.2", construct(f_, text="global state"), where(f_), f"{f_.fq} rebinds global state")
+    if len(seen_f) > 1:
+        # helper functions: every helper that encodes must receive the charset
+        for fq in sorted(seen_f - {fn.fq}):
+            h_ = p.func(fq)
+            enc = [c for c in calls_in(h_) if isinstance(c.func, ast.Attribute) and c.func.attr == "encode"]
+            if enc and not all(c.args and ast.unparse(c.args[0]) == "charset" for c in enc):
+                rep.violation("R19.2", construct(h_, text="encode without the response charset"), where(h_), f"{h_.fq} encodes a field line with something other than the response charset")
+    rep.ok("R19.2", f"the encoder and its {len(seen_f) - 1} helper(s) use no module-level mutable state")
     rep.require_instances("R19.1", 1)
     rep.require_instances("R19.2", 4)
 
